@@ -5,8 +5,8 @@ import json, os, shutil, subprocess, sys
 ROOT = os.path.dirname(os.path.dirname(os.path.abspath(__file__)))
 pid = sys.argv[1]
 extra = [a for a in sys.argv[2:] if not a.startswith('--')]
-wt = '/tmp/wt_%s' % pid
-for n in ('1', '2', '3'):
+wt = os.environ.get("SEED_WT_PREFIX", "/tmp/wt_") + pid
+for n in ('1', '2', '3', '4', '5', '6'):
     src = os.path.join(wt, 'mutants', n)
     if not os.path.isdir(src):
         continue
